@@ -32,7 +32,7 @@ def run(ctx, pid, kinds, n_quick, n_thorough, polite=60, extra_assumptions=()):
         ctx.broken_build("Props/%s.v does not compile" % pid, rep["log"])
     ok, binp, log = V.build_harness("sup")
     results, stats = [], {}
-    rejected, bad, wcodes = [], [], []
+    rejected, bad, wcodes, badw = [], [], [], {}
     if not ok:
         ctx.broken_build("harness-build(-tags verif) against current /repo tree (a missing trace point hook shows up here)", log)
     else:
@@ -67,6 +67,8 @@ def run(ctx, pid, kinds, n_quick, n_thorough, polite=60, extra_assumptions=()):
             results += json.load(open(d / "cases_SUP.json"))
             rejected += [base + i for i in res["r_rejected"]]
             bad += [base + i for i in res[key]]
+            for i, w in zip(res[key], res.get("r_badw_" + pid, [])):
+                badw[base + i] = w
             wcodes += res["r_windows"]
             if ctx.replay:
                 break
@@ -74,7 +76,8 @@ def run(ctx, pid, kinds, n_quick, n_thorough, polite=60, extra_assumptions=()):
     crashed = [i for i, r in enumerate(results) if r.get("crashed")]
     unexplained, explained = [], {}
     for i in bad:
-        wn = win_names(wcodes[i]) if i < len(wcodes) else []
+        # only windows the history went through BEFORE the violating event can explain the violation
+        wn = win_names(badw[i]) if i in badw else (win_names(wcodes[i]) if i < len(wcodes) else [])
         hit = [w for w in wn if ctx.is_known("window:" + w)]
         if hit:
             explained.setdefault(hit[0], []).append(i)
